@@ -36,6 +36,10 @@ def _cls_empty(data, finding):
 @vlib.classifier('numeric-alias-merge')
 def _cls_alias(data, finding):
     from checks.c02 import norm_alias
+    if data.get('kind') == 'law' and 'got' in data:
+        # notebook laws: merged differs from X only by numbers that Python's == identifies (False/0, 1/1.0 ...)
+        got, want = dec(data['got']), dec(data['b'] if data.get('law') == 'identity' else data['x'])
+        return canon(got) != canon(want) and canon(norm_alias(got)) == canon(norm_alias(want))
     if data.get('kind') not in ('generic-law',):
         return False
     return canon(data.get('got')) != canon(data.get('want')) and canon(norm_alias(data.get('got'))) == canon(norm_alias(data.get('want')))
